@@ -223,10 +223,11 @@ def run(ctx):
     cases = gen_cases(ctx)
     bins = build_all(ctx)
     res, facts_line = correspondence(ctx, cases, bins, drv, "debug")
-    if ctx.thorough():
-        rbins = build_all(ctx, release=True)
-        r2, _ = correspondence(ctx, cases, rbins, drv, "release")
-        res += r2
+    # the release profile too, in both tiers: `cfg!(debug_assertions)`-dependent guards differ only there
+    rbins = build_all(ctx, release=True)
+    rcases = cases if ctx.thorough() else [c for c in cases if c[2] in STARTS]
+    r2, _ = correspondence(ctx, rcases, rbins, drv, "release")
+    res += r2
     ctx.coverage["model_facts"] = facts_line
 
     for cfg in CONFIGS:
